@@ -510,7 +510,11 @@ func cleanupFilePos(tfile *token.File, cl engine.Changelog, comments []*ast.Comm
 			continue
 		}
 
-		for i := tfile.Line(dr.Start); i < tfile.Line(dr.End); i++ {
+		// Lines of the file itself, not those claimed by //line directives:
+		// MergeLine below works on the former.
+		first := tfile.PositionFor(dr.Start, false).Line
+		last := tfile.PositionFor(dr.End, false).Line
+		for i := first; i < last; i++ {
 			if i > 0 {
 				linesToDelete[i] = struct{}{}
 			}
